@@ -9,6 +9,9 @@ CLAIMED = {
  "C27": ("§2 C27", "SSA provenance (ownership) analysis: backward origin walk through phi/slice/append/field/extract with reaching stores for local structs, captured-variable cells, return summaries and writes-through summaries to a fixpoint; AST checks of the overlay direction",
   "Decides that no code path of interp/expand/internal writes through variable storage it shares with another shell: every element store, map update, delete, clear, copy, in-place slices/sort call and append on a variable's list, indexes or map, or on the positional parameters, must act on storage created in the same activation; handing such storage to a callee that stores through its parameter is judged at the call site. Also that subshell() gives the copy fresh maps/slices/environment except a named table of fields shared by design, that background copies copy every variable, and that overlays write to their parent only in function scope. The analysis found the in-place array append on the pinned tree (repaired by a fix: commit). Runs on six build configurations in the thorough tier.",
   "Sound relative to: no reflection/unsafe in these packages (checked); storage returned by Environ.Get/lookupVar/Resolve or received as a parameter is treated as shared, clones/makes/literals as owned; stdlib aliasing and mutating helpers come from an explicit table. Does not decide isolation of cd/options/traps beyond by-value copies."),
+ "C32": ("§2 C32", "SSA receiver-provenance of every Runner used inside a spawned function (go statements and WaitGroup.Go, enumerated) back to subshell(true) in the spawning function; fixpoint summary of the Runner fields each method may store; CFG ordering of exit-status store, close(done) and receive; the C27 storage-ownership rules reused",
+  "Decides that everything the interpreter runs on another goroutine runs on a deep copy: inside each spawned function every Runner that is stored to (directly or through a method whose summary stores Runner fields) comes from subshell(true) of the spawning function and the parent Runner is only read; that a background job's exit status is stored before its done channel is closed and read only after receiving from it; and (shared with C27) that no copy writes through list/map storage it shares with the parent. A goroutine started on the parent or on subshell(false), or a status read without the receive, is one failing obligation regardless of schedule. Runs on six build configurations in the thorough tier.",
+  "Explores no interleavings. Loads of parent fields from spawned functions (error reporting via the parent's stderr on FIFO failures) are listed in the evidence as observed, not decided. User-supplied handlers and writers are outside the analysis. Assumes go statements and WaitGroup.Go are the only goroutine starts in package interp (enumerated, with a floor)."),
  "C29": ("§2 C29", "the same SSA provenance analysis applied to syntax-tree storage (field stores, whole-value stores, element stores, appends, calls of functions that store through a node parameter), with a coinductive callback-argument analysis; AST enumeration of Runner.Env uses and writeEnv assignments",
   "Decides that the interpreter and expansion code never store into a syntax tree they were given: each store into a node, each element store/append on node slices and each call of a mutator such as SplitBraces acts on a copy or literal of the same activation, including inside callbacks (every invocation is shown to pass a fresh node). Decides that Runner.Env is only read (Get/Each, parent link of overlays) and never asserted to a writable environment, and that writeEnv is always an interpreter-created overlay.",
   "No reflection/unsafe in interp/expand/shell (checked). User-supplied handlers are outside the analysis."),
